@@ -46,7 +46,7 @@ FIELDS = [
     ([[RELS[2]], [RELS[10]]], False, ("shlibs:Depends", "misc:Depends")),
     ([], False, ()),
 ]
-STYLES = ["tight", "canonical", "loose", "newlines"]
+STYLES = ["tight", "canonical", "loose", "newlines", "tabs", "wrapped"]
 
 
 def combo_fields(tier):
@@ -238,9 +238,9 @@ def run(tier):
     allfields = FIELDS + combo_fields(tier)
     for fi, (entries, trailing, svars) in enumerate(allfields):
         if fi < len(FIELDS):
-            styles = STYLES if tier == "thorough" or fi % 2 == 0 else ["canonical", "newlines"]
+            styles = STYLES if tier == "thorough" or fi % 2 == 0 else ["canonical", "newlines", "wrapped"]
         else:
-            styles = STYLES if tier == "thorough" else [STYLES[fi % 4]]
+            styles = STYLES if tier == "thorough" else [STYLES[fi % len(STYLES)], STYLES[(fi // 2 + 3) % len(STYLES)]]
         for style in styles:
             toks = relspec.field_tokens(entries, style, trailing, svars)
             text = db.text_of_tokens(toks)
